@@ -277,6 +277,40 @@ def _arms(e):
     return [e]
 
 
+def _callee_func(fn, call):
+    """core.Func of a module-level helper / same-class method called by `call` inside function fn, else None."""
+    f = call.func
+    if isinstance(f, ast.Name):
+        return fn.module.funcs.get(f.id)
+    if isinstance(f, ast.Attribute) and astx.path(f.value) == 'self' and fn.cls is not None:
+        return fn.module.funcs.get(f'{fn.cls.name}.{f.attr}')
+    return None
+
+
+def _helper_return_elts(fn, call, pos, arity):
+    """(helper Func, [(return stmt, element expr)]) for element `pos` of the tuples returned by a local helper."""
+    hf = _callee_func(fn, call)
+    if hf is None:
+        return None, []
+    out = []
+    for st in astx.walk_stmts(hf.node.body):
+        if isinstance(st, ast.Return):
+            if not (isinstance(st.value, ast.Tuple) and len(st.value.elts) == arity):
+                return hf, None
+            out.append((st, st.value.elts[pos]))
+    return hf, out
+
+
+def _calls_deep(fn):
+    """Calls in fn and, one level down, in the local helpers it calls."""
+    cs = list(astx.calls(fn.node))
+    for c in list(cs):
+        hf = _callee_func(fn, c)
+        if hf is not None and hf.node is not fn.node:
+            cs += astx.calls(hf.node)
+    return cs
+
+
 def _real_defs(ds):
     """Reaching definitions without `name = None` placeholders."""
     return {d for d in ds if not (d.kind == 'stmt' and isinstance(d.ast, ast.Assign) and _const(d.ast.value, None))}
@@ -1893,6 +1927,15 @@ class _Walk:
                         arr[nm] = self.is_array(st.value, arr, node)
                         self.use(st, st.value, arr, node, events_box := [events])
                         events = events_box[0]
+                elif isinstance(st, ast.Assign) and len(st.targets) == 1 and isinstance(st.targets[0], ast.Tuple) and \
+                        isinstance(st.value, ast.Call):
+                    tn_ = [t.id if isinstance(t, ast.Name) else None for t in st.targets[0].elts]
+                    for i_, nm in enumerate(tn_):
+                        if nm is None:
+                            continue
+                        consts.pop(nm, None)
+                        hf, rets = _helper_return_elts(self.sm.fn, st.value, i_, len(tn_))
+                        arr[nm] = bool(rets) and any(self.is_array(elt, {}, node) for _, elt in rets)
                 elif isinstance(st, ast.AugAssign) and isinstance(st.target, ast.Name):
                     nm = st.target.id
                     consts.pop(nm, None)
@@ -2894,6 +2937,25 @@ def _magnitude(sm, e, at, depth=0):
             if d.kind == 'stmt' and isinstance(d.ast, ast.Assign) and len(d.ast.targets) == 1 and \
                     astx.path(d.ast.targets[0]) == e.id:
                 kinds.add(_magnitude(sm, d.ast.value, d, depth + 1))
+            elif d.kind == 'stmt' and isinstance(d.ast, ast.Assign) and len(d.ast.targets) == 1 and \
+                    isinstance(d.ast.targets[0], ast.Tuple) and isinstance(d.ast.value, ast.Call):
+                # `flag, value = helper(...)`: follow the helper's return tuples
+                names_ = [t.id if isinstance(t, ast.Name) else None for t in d.ast.targets[0].elts]
+                hf, rets = _helper_return_elts(sm.cx.fn, d.ast.value, names_.index(e.id), len(names_)) \
+                    if e.id in names_ else (None, None)
+                if hf is None or not rets:
+                    kinds.add(None)
+                    continue
+                import types
+                try:
+                    hsm = types.SimpleNamespace(env={}, cx=Ctx(hf, sys_index=0))
+                except AnalysisError:
+                    kinds.add(None)
+                    continue
+                for rst, elt in rets:
+                    if _const(elt, None):
+                        continue
+                    kinds.add(_magnitude(hsm, elt, hsm.cx.g.nodes_of(rst)[0], depth + 1))
             else:
                 kinds.add(None)
         return kinds.pop() if len(kinds) == 1 else None
@@ -3288,7 +3350,7 @@ def stale_data(repo, out):
     cached = cg.g.path([cg.g.entry], [cg.g.exit], avoid=[n for n, _ in inits], labels=cfgm.noexc) is not None
     for rel, cls in ((FD, 'FiniteDifference'), (CS, 'ComplexStep')):
         fn = repo.func(rel, f'{cls}._get_approx_data')
-        reads = [c for c in astx.calls(fn.node) if astx.callee_attr(c) in ('_abs_get_val', 'get_val', '_get_val')]
+        reads = [c for c in _calls_deep(fn) if astx.callee_attr(c) in ('_abs_get_val', 'get_val', '_get_val')]
         if not reads:
             out.ok(fn, fn.node, f'{cls}: approximation data does not read variable values')
             continue
@@ -3471,6 +3533,12 @@ selftest(
            '            app_data = data if direction is None else self.apply_directional(data, direction)\n\n            mult = self._get_multiplier(app_data)\n', 'C12.pipeline'),
     Mutant('buffer-if-else-live-view', AS, '        results_array = system._outputs.asarray(copy=True) if total_or_semi \\\n            else system._residuals.asarray(copy=True)\n',
            '        if total_or_semi:\n            results_array = system._outputs.asarray(copy=True)\n        else:\n            results_array = system._residuals.asarray()\n', 'C12.result-buffer'),
+    Mutant('scale-abs-after-sum-with-lookup-helper', FD, '            var_local = True\n            if system._outputs._contains_abs(wrt):\n                wrt_val = system._outputs._abs_get_val(wrt)\n            elif system._inputs._contains_abs(wrt):\n                wrt_val = system._inputs._abs_get_val(wrt)\n            else:\n                var_local = False\n', '            var_local, wrt_val = _get_local_wrt_val(system, wrt)\n', 'C12.step-scale',
+           also=[(FD, 'class FiniteDifference(ApproximationScheme):', 'def _get_local_wrt_val(system, wrt):\n    outputs = system._outputs\n    if outputs._contains_abs(wrt):\n        return True, outputs._abs_get_val(wrt)\n    inputs = system._inputs\n    if inputs._contains_abs(wrt):\n        return True, inputs._abs_get_val(wrt)\n    return False, None\n\n\nclass FiniteDifference(ApproximationScheme):'),
+                 (FD, 'step *= np.sum(np.abs(wrt_val)) / len(wrt_val)', 'step *= np.abs(np.sum(wrt_val)) / len(wrt_val)')]),
+    Mutant('stepcalc-rel-not-dispatched-with-lookup-helper', FD, '            var_local = True\n            if system._outputs._contains_abs(wrt):\n                wrt_val = system._outputs._abs_get_val(wrt)\n            elif system._inputs._contains_abs(wrt):\n                wrt_val = system._inputs._abs_get_val(wrt)\n            else:\n                var_local = False\n', '            var_local, wrt_val = _get_local_wrt_val(system, wrt)\n', 'C12.step-calc',
+           also=[(FD, 'class FiniteDifference(ApproximationScheme):', 'def _get_local_wrt_val(system, wrt):\n    outputs = system._outputs\n    if outputs._contains_abs(wrt):\n        return True, outputs._abs_get_val(wrt)\n    inputs = system._inputs\n    if inputs._contains_abs(wrt):\n        return True, inputs._abs_get_val(wrt)\n    return False, None\n\n\nclass FiniteDifference(ApproximationScheme):'),
+                 (FD, "elif step_calc == 'rel_avg' or step_calc == 'rel':", "elif step_calc == 'rel_avg':")]),
     # ---- result-buffer
     Mutant('buffer-colored-live-view', AS, 'results_array = vec.asarray(copy=True)', 'results_array = vec.asarray()', 'C12.result-buffer'),
     Mutant('buffer-uncolored-live-view', AS, 'results_array = system._outputs.asarray(copy=True) if total_or_semi',
@@ -3730,6 +3798,8 @@ selftest(
          '            app_data = data if direction is None else self.apply_directional(data, direction)\n'),
     Twin('twin-buffer-if-else', AS, '        results_array = system._outputs.asarray(copy=True) if total_or_semi \\\n            else system._residuals.asarray(copy=True)\n',
          '        if total_or_semi:\n            results_array = system._outputs.asarray(copy=True)\n        else:\n            results_array = system._residuals.asarray(copy=True)\n'),
+    Twin('twin-wrt-value-lookup-helper', FD, '            var_local = True\n            if system._outputs._contains_abs(wrt):\n                wrt_val = system._outputs._abs_get_val(wrt)\n            elif system._inputs._contains_abs(wrt):\n                wrt_val = system._inputs._abs_get_val(wrt)\n            else:\n                var_local = False\n', '            var_local, wrt_val = _get_local_wrt_val(system, wrt)\n',
+         also=[(FD, 'class FiniteDifference(ApproximationScheme):', 'def _get_local_wrt_val(system, wrt):\n    outputs = system._outputs\n    if outputs._contains_abs(wrt):\n        return True, outputs._abs_get_val(wrt)\n    inputs = system._inputs\n    if inputs._contains_abs(wrt):\n        return True, inputs._abs_get_val(wrt)\n    return False, None\n\n\nclass FiniteDifference(ApproximationScheme):')]),
     Twin('twin-fd-zero-literal', FD, '        else:\n            results_array[:] = 0.\n\n        # Run', '        else:\n            results_array[:] = 0.0\n\n        # Run'),
     Twin('twin-cs-loop-variable', CS, 'for tup in self._compute_approx_col_iter(system, under_cs=True):\n                yield tup',
          'for item in self._compute_approx_col_iter(system, under_cs=True):\n                yield item'),
